@@ -1,19 +1,23 @@
 #!/usr/bin/env python3
-"""Regenerates MANIFEST.json from the table below (keeps it valid at all times)."""
+"""Regenerates MANIFEST.json from the tables below (keeps it valid at all times)."""
 import json, os
 V = os.path.dirname(os.path.abspath(__file__))
 
+TECH = "deterministic simulation with fault injection: seeded search over schedules, faults and histories on a simulated kernel, checked against a reference model"
+
 CLAIMED = {
- "C01": dict(engine="dirmodel", design="DESIGN.md section 4 (C01)",
+ "C01": dict(engine="dirmodel", path="harness/scen/dirmodel.go", design="DESIGN.md section 4 (C01)",
    text="Seeded exploration of directory histories (1-4 directories incl. missing/repeated, populations of valid/invalid/non-Spec files, 1-8 steps of creates, rewrites, temp+rename replacements, removals, renames, moves, mkdir/rm -r) in manual and automatic refresh mode on the simulated kernel; after every refresh point every query result (ListDevices, GetDevice path/priority/definition, ListVendors, ListClasses, GetVendorSpecs, GetErrors) is compared with an executable reference model of the precedence rule. Exploration is the right level: the space of histories is unbounded and the oracle is exact per run.",
    note="Trusted: the simulator (sim/memfs, sim/fsnotify stub, sim/sched), the rewriter, the reference model and the validity-by-construction generator; samples the space."),
-
- "C13": dict(engine="dirmodel", design="DESIGN.md section 4 (C13)",
+ "C13": dict(engine="dirmodel", path="harness/scen/dirmodel.go", design="DESIGN.md section 4 (C13)",
    text="Seeded exploration of fault placements and repairs on the simulated kernel: invalid files of 15 kinds, unreadable files (non-root credential), dangling/looping/directory symlinks, configured directories that are missing, regular files, below a non-directory, unreadable or unsearchable, in every position of a 1-4 entry directory list; in manual mode additionally transient EIO/EMFILE injected into the scanner's own lstat/open/getdents/read calls and a concurrent mutator inside the scan window. After every Refresh(): isolation (every device of a readable valid file in a scannable directory resolves as the model says), reporting (entry for every failing Spec file, none for a healthy one), the Refresh() result, and repair (a clean Refresh clears every entry whose cause is gone).",
    note="Trusted: simulator, model, generator. The relaxation under injected faults is computed from the exact calls the simulator failed (per directory index); fault-free and faulty refreshes are checked separately. Transient faults and the concurrent mutator are manual-mode only (in auto mode an explicit Refresh() does not rescan)."),
+ "C16": dict(engine="writeremove", path="harness/scen/c16.go", design="DESIGN.md section 4 (C16)",
+   text="Seeded exploration of configurations (1-4 directories, last one possibly missing with missing parents, pre-existing Specs incl. lower-priority definitions of the same devices and similarly named siblings), names from all four generator functions with hostile transient ids ('/', '..', dots, extensions, blanks, long ids), vendors/classes with dots and .json/.yaml endings, and sequences of WriteSpec/RemoveSpec; the simulated disk records every system call, so confinement ('touches nothing else') is checked on the complete history including effects undone before return. A quarter of the runs inject write faults (ENOSPC/EIO/EDQUOT/EMFILE, partial writes): then only confinement and target-is-old-or-new are required.",
+   note="Trusted: simulator, model; the expected target path is computed from the property statement (last directory + name, .yaml appended unless the name ends in .json/.yaml)."),
 }
 
-NA = {
+PURE = {
  "C02": "pure function of cache content, OCI spec and request order: no schedule, fault, crash point or environment history in the statement; deterministic simulation has nothing to decide",
  "C03": "Apply is a pure function of (OCI spec, edit list, host nodes); the only environment clause (host-stat fill-in) is exercised over host histories under C14",
  "C04": "all-or-nothing on unresolvable names is a pure function of cache content and request list",
@@ -22,20 +26,16 @@ NA = {
  "C07": "the name grammar is a pure predicate on strings",
  "C08": "universal over input values (byte strings, maps, names, documents); no schedule or fault dimension. Panics met inside any engine are still reported under that engine's property (two were found and fixed that way)",
  "C09": "write-then-read equality is a pure function of the Spec value and the two encoders",
- "C10": "claimed in DESIGN.md; engine not built yet in this revision",
- "C11": "claimed in DESIGN.md; engine not built yet in this revision",
- "C12": "claimed in DESIGN.md; engine not built yet in this revision",
-
- "C14": "claimed in DESIGN.md; engine not built yet in this revision",
  "C15": "annotation helpers are pure functions on strings and maps",
- "C16": "claimed in DESIGN.md; engine not built yet in this revision",
  "C17": "schema verdicts are pure functions of the document and schema",
  "C18": "agreement of two validators is a pure statement over Spec values",
  "C19": "compares separately built CLI processes with library calls on the same inputs; nothing for a scheduler or fault injector to decide, and the binaries cannot run on the simulated kernel",
- "C20": "claimed in DESIGN.md; engine not built yet in this revision",
 }
+PENDING = "a simulation target per DESIGN.md section 2; its engine is not built yet in this revision, so it is not claimed"
+ALL = ["C%02d" % i for i in range(1, 21)]
 
 checks = []
+engines = {}
 for pid, c in sorted(CLAIMED.items()):
     checks.append({
         "property_id": pid,
@@ -46,8 +46,15 @@ for pid, c in sorted(CLAIMED.items()):
         "engine": c["engine"],
         "level_claimed": {"category": "exploration", "text": c["text"], "design_ref": c["design"]},
         "level_note": c["note"],
-        "technique": c.get("technique", "deterministic simulation with fault injection: seeded search over schedules, faults and histories on a simulated kernel, checked against a reference model"),
+        "technique": c.get("technique", TECH),
     })
+    e = engines.setdefault(c["engine"], {"name": c["engine"], "path": c["path"], "serves_properties": [], "kind_free_text": "seeded deterministic simulation scenario on the simulated kernel"})
+    e["serves_properties"].append(pid)
+na = []
+for pid in ALL:
+    if pid in CLAIMED:
+        continue
+    na.append({"property_id": pid, "reason": PURE.get(pid, PENDING)})
 man = {
  "version": 1,
  "setup_cmd": "./check build",
@@ -58,12 +65,10 @@ man = {
    "source_commits": [],
    "add_only": True,
  },
- "engines": [
-   {"name": "dirmodel", "path": "harness/scen/dirmodel.go", "serves_properties": ["C01", "C13"], "kind_free_text": "directory histories vs reference model on the simulated kernel"},
- ],
+ "engines": list(engines.values()),
  "checks": checks,
- "not_applicable": [{"property_id": k, "reason": v} for k, v in sorted(NA.items()) if k not in CLAIMED],
+ "not_applicable": na,
  "notes": "Exit codes of every check: 0 held, 1 VIOLATION line, 2 build/machinery trouble. VERIF_SEED selects the seed; VERIF_DURATION (seconds) overrides the per-tier wall-clock budget; VERIF_WORKERS the number of worker processes.",
 }
 json.dump(man, open(os.path.join(V, "MANIFEST.json"), "w"), indent=1)
-print("MANIFEST.json written:", len(checks), "checks,", len(man["not_applicable"]), "not applicable")
+print("MANIFEST.json written:", len(checks), "checks,", len(na), "not applicable")
